@@ -1,0 +1,5 @@
+//go:build !verif
+
+package sse
+
+func verifAt(string, any, any) {}
